@@ -76,6 +76,18 @@ def _fresh_dt(name, depth):
             for f in order[3 + depth:]:
                 setattr(d, f, 0)
         return d
+
+    def sample(rng):
+        """a concrete datetime at this resolution (for concrete replays when a proof is lost)"""
+        import calendar
+        y = rng.randint(1990, 2030) if rng.random() < 0.7 else rng.choice([1000, 1600, 1965, 2000, 2064, 2400, 9999, rng.randint(1000, 9999)])
+        mo = rng.randint(1, 12)
+        dd = rng.choice([1, calendar.monthrange(y, mo)[1], rng.randint(1, calendar.monthrange(y, mo)[1])])
+        parts = [rng.choice([0, 23, rng.randint(0, 23)]), rng.choice([0, 59, rng.randint(0, 59)]), rng.choice([0, 59, rng.randint(0, 59)])]
+        us = rng.choice([0, 999000, rng.randint(0, 999) * 1000]) if depth == 4 else (rng.choice([0, 999999, 249, rng.randint(0, 999999)]) if depth >= 6 else 0)
+        fields = [p_ if k < depth else 0 for k, p_ in enumerate(parts)]
+        return datetime(y, mo, dd, fields[0], fields[1], fields[2], us if depth >= 4 else 0)
+    make.sample = sample
     return make
 
 
